@@ -1381,7 +1381,9 @@ fn srv_judge(cx: &SrvCtx, ls: &LsSession, out: &mut SrvOut, sdir: &Path, sc: &Sr
         if !applies {
             // a file-dictionary word of the OTHER document must stay reported here (unless it is also
             // in the user dictionary or this document's own file dictionary)
-            let also = sc.adds.iter().take(upto).any(|b| b.w == a.w && (!b.file || b.doc == doc));
+            // (any case variant: a capitalised form of a lower-case entry of THIS document's own
+            // dictionaries is accepted by design, C06)
+            let also = sc.adds.iter().take(upto).any(|b| b.w.to_lowercase() == a.w.to_lowercase() && (!b.file || b.doc == doc));
             if !also && !FstDictionary::curated().contains_word(&cs(&a.w)) {
                 out.o_cases += 1;
                 if !line_flagged(&published, line) {
